@@ -95,6 +95,8 @@ type scenario struct {
 	Hostile        *hostileCase `json:"hostile,omitempty"`     // group X (hostile_test.go)
 	Repeat         *repeatCase  `json:"repeat,omitempty"`      // group R (repeat_test.go)
 	ChkScope       string       `json:"check_scope,omitempty"` // where the scripted check is configured: "" = global check{}, "source", "dest"
+	BufFault       *bufFault    `json:"buf_fault,omitempty"`   // group F (buffault_test.go): the spool file / directory of the buffer fails at a chosen point
+	BufDir         string       `json:"-"`                     // the case's own buffer directory (only with BufFault)
 	Faults         []fault      `json:"faults"`
 	Steps          []step       `json:"steps"`
 	End            string       `json:"end"` // quit halfclose rst close
